@@ -246,21 +246,21 @@ def _expand_combinator(prog, t, locals_, blocks, b, file_):
         pre.append(assign(pl(r_l), {"k": "ref", "mut": recv_ty["t"].startswith("&mut"), "place": pl(clo["l"])}))
         recv = {"k": "move", "l": r_l, "p": []}
     else:
-        recv = copy.deepcopy(clo)
+        recv = _jcopy(clo)
     # --- the branch that does not run the closure
     if obranch == "none":
-        o_st = [assign(copy.deepcopy(dest), agg("std::option::Option", "None", []))]
+        o_st = [assign(_jcopy(dest), agg("std::option::Option", "None", []))]
     elif obranch.startswith("forward:") or obranch.startswith("wrap_payload:"):
         _, k_, v_ = obranch.split(":")
-        o_st = [assign(copy.deepcopy(dest), agg(ADT[k_][0], v_, [payload(s_l, other_variant)]))]
+        o_st = [assign(_jcopy(dest), agg(ADT[k_][0], v_, [payload(s_l, other_variant)]))]
     elif obranch == "payload":
-        o_st = [assign(copy.deepcopy(dest), {"k": "use", "x": payload(s_l, other_variant)})]
+        o_st = [assign(_jcopy(dest), {"k": "use", "x": payload(s_l, other_variant)})]
     elif obranch == "false":
-        o_st = [assign(copy.deepcopy(dest), {"k": "use", "x": {"k": "const", "ty": "bool", "v": 0}})]
+        o_st = [assign(_jcopy(dest), {"k": "use", "x": {"k": "const", "ty": "bool", "v": 0}})]
     elif obranch == "default":
-        o_st = [assign(copy.deepcopy(dest), {"k": "use", "x": copy.deepcopy(dflt)})]
+        o_st = [assign(_jcopy(dest), {"k": "use", "x": _jcopy(dflt)})]
     else:   # same
-        o_st = [assign(copy.deepcopy(dest), {"k": "use", "x": {"k": "move", "l": s_l, "p": []}})]
+        o_st = [assign(_jcopy(dest), {"k": "use", "x": {"k": "move", "l": s_l, "p": []}})]
     b_other = nb(o_st, {"k": "goto", "t": target})
     # --- the branch that runs the closure
     args = [recv] if fitem is None else []
@@ -279,25 +279,25 @@ def _expand_combinator(prog, t, locals_, blocks, b, file_):
     callee = {"key": g.key, "local": True, "path": g.path, "full": g.path, "name": g.name if fitem is not None else "{closure}",
               "closure_call": fitem is None} if g is not None else None
     if cbranch == "default":
-        b_call = nb([assign(copy.deepcopy(dest), {"k": "use", "x": copy.deepcopy(dflt)})], {"k": "goto", "t": target})
+        b_call = nb([assign(_jcopy(dest), {"k": "use", "x": _jcopy(dflt)})], {"k": "goto", "t": target})
     elif cbranch == "direct":
-        b_call = nb(c_st, {"k": "call", "f": callee, "args": args, "dest": copy.deepcopy(dest), "t": target, "unwind": unwind, "ln": ln})
+        b_call = nb(c_st, {"k": "call", "f": callee, "args": args, "dest": _jcopy(dest), "t": target, "unwind": unwind, "ln": ln})
     elif cbranch.startswith("wrap:"):
         _, k_, v_ = cbranch.split(":")
         y_l = nl(g.locals[0])
-        b_wrap = nb([assign(copy.deepcopy(dest), agg(ADT[k_][0], v_, [{"k": "move", "l": y_l, "p": []}]))], {"k": "goto", "t": target})
+        b_wrap = nb([assign(_jcopy(dest), agg(ADT[k_][0], v_, [{"k": "move", "l": y_l, "p": []}]))], {"k": "goto", "t": target})
         b_call = nb(c_st, {"k": "call", "f": callee, "args": args, "dest": pl(y_l), "t": b_wrap, "unwind": unwind, "ln": ln})
     else:   # keep_if
         r2 = nl({"t": "bool", "k": "prim"})
-        b_keep = nb([assign(copy.deepcopy(dest), {"k": "use", "x": {"k": "move", "l": s_l, "p": []}})], {"k": "goto", "t": target})
-        b_drop = nb([assign(copy.deepcopy(dest), agg("std::option::Option", "None", []))], {"k": "goto", "t": target})
+        b_keep = nb([assign(_jcopy(dest), {"k": "use", "x": {"k": "move", "l": s_l, "p": []}})], {"k": "goto", "t": target})
+        b_drop = nb([assign(_jcopy(dest), agg("std::option::Option", "None", []))], {"k": "goto", "t": target})
         b_sw = nb([], {"k": "switch", "x": {"k": "move", "l": r2, "p": []}, "arms": [[0, b_drop]], "otherwise": b_keep, "ln": ln})
         b_call = nb(c_st, {"k": "call", "f": callee, "args": args, "dest": pl(r2), "t": b_sw, "unwind": unwind, "ln": ln})
     # --- the dispatching block (replaces the combinator call)
     blk = blocks[b]
     if isinstance(blocks, _Blocks):
-        blocks.touch()
-    blk["s"].append(assign(pl(s_l), {"k": "use", "x": copy.deepcopy(scr)}))
+        blocks.touch(b)
+    blk["s"].append(assign(pl(s_l), {"k": "use", "x": _jcopy(scr)}))
     if adt == "bool":
         blk["t"] = {"k": "switch", "x": {"k": "copy", "l": s_l, "p": []}, "arms": [[0, b_other]], "otherwise": b_call, "ln": ln,
                     "expanded": fj.get("path")}
@@ -313,29 +313,61 @@ FN_CALLS = ("std::ops::FnOnce::call_once", "std::ops::FnMut::call_mut", "std::op
 
 
 class _Blocks(list):
-    """block list with an index of whole-local definitions, rebuilt lazily when blocks were added or
-    changed (the inliner only appends blocks and statements)"""
+    """block list with an index of whole-local definitions, maintained incrementally: the inliner only
+    appends blocks, appends statements to a block and replaces a block's terminator, and reports the
+    block it changed with touch(b)"""
     def __init__(self, it):
         super().__init__(it)
-        self._idx = None
-        self._stamp = None
+        self._idx = {}
+        self._rec = []          # per indexed block: [statements indexed, dest local of its call terminator]
+        self._dirty = set()
 
-    def touch(self):
-        self._idx = None
+    def touch(self, b=None):
+        if b is None:
+            self._idx, self._rec, self._dirty = {}, [], set()
+        else:
+            self._dirty.add(b)
+
+    def _index_block(self, i):
+        blk = self[i]
+        idx = self._idx
+        if i < len(self._rec):
+            n0, d0 = self._rec[i]
+        else:
+            n0, d0 = 0, None
+            self._rec.append([0, None])
+        ss = blk["s"]
+        for k in range(n0, len(ss)):
+            st = ss[k]
+            if st["k"] == "assign" and not st["place"]["p"]:
+                idx.setdefault(st["place"]["l"], []).append(st)
+        t = blk["t"]
+        d1 = t["dest"]["l"] if t["k"] == "call" and not t["dest"]["p"] else None
+        if d1 != d0:
+            if d0 is not None:
+                idx[d0].remove(None)
+            if d1 is not None:
+                idx.setdefault(d1, []).append(None)
+        self._rec[i] = [len(ss), d1]
 
     def defs(self):
-        stamp = len(self)
-        if self._idx is None or stamp != self._stamp:
-            idx = {}
-            for blk in self:
-                for st in blk["s"]:
-                    if st["k"] == "assign" and not st["place"]["p"]:
-                        idx.setdefault(st["place"]["l"], []).append(st)
-                t = blk["t"]
-                if t["k"] == "call" and not t["dest"]["p"]:
-                    idx.setdefault(t["dest"]["l"], []).append(None)
-            self._idx, self._stamp = idx, stamp
+        if self._dirty:
+            for b in sorted(self._dirty):
+                if b < len(self._rec):
+                    self._index_block(b)
+            self._dirty = set()
+        for i in range(len(self._rec), len(self)):
+            self._index_block(i)
         return self._idx
+
+
+def _jcopy(x):
+    """copy of a JSON-like tree (dict / list / scalars), much cheaper than copy.deepcopy"""
+    if type(x) is dict:
+        return {k: _jcopy(v) for k, v in x.items()}
+    if type(x) is list:
+        return [_jcopy(v) for v in x]
+    return x
 
 
 def _single_def_stmt(blocks, l):
@@ -468,7 +500,7 @@ def _resolve_closure_call(prog, t, locals_, blocks):
     # receiver as the body expects it: by value for FnOnce closures, by reference otherwise
     want_ref = g.locals[1].get("t", "").startswith("&")
     have_ref = locals_[recv["l"]].get("t", "").startswith("&") or locals_[recv["l"]].get("k") == "ref"
-    args = [copy.deepcopy(recv)]
+    args = [_jcopy(recv)]
     if want_ref and not have_ref:
         # cannot take a reference without a new statement here; bind by value (the engines only follow
         # the data flow, which is the same)
@@ -508,7 +540,7 @@ def inline(prog, f, pick=None, keep=(), depth=MAX_DEPTH, cross=None, value_combi
             break
     if not maybe:
         return f
-    blocks = _Blocks(copy.deepcopy(j["blocks"]))
+    blocks = _Blocks(_jcopy(j["blocks"]))
     locals_ = list(j["locals"])
     names = list(j.get("names", []))
     promoted = list(j.get("promoted", []))
@@ -592,7 +624,7 @@ def inline(prog, f, pick=None, keep=(), depth=MAX_DEPTH, cross=None, value_combi
         else:
             locals_.extend(g.j["locals"])
         for nm in g.j.get("names", []):
-            nm2 = copy.deepcopy(nm)
+            nm2 = _jcopy(nm)
             _map_place(nm2["place"], lo)
             nm2["arg"] = None
             names.append(nm2)
@@ -601,7 +633,7 @@ def inline(prog, f, pick=None, keep=(), depth=MAX_DEPTH, cross=None, value_combi
             pj2["idx"] = pj["idx"] + po
             promoted.append(pj2)
             next_prom = max(next_prom, pj2["idx"] + 1)
-        gblocks = copy.deepcopy(g.j["blocks"])
+        gblocks = _jcopy(g.j["blocks"])
         if cbind:
             _subst_consts(gblocks, cbind)
         call_target = t.get("t")
@@ -612,7 +644,7 @@ def inline(prog, f, pick=None, keep=(), depth=MAX_DEPTH, cross=None, value_combi
             _map_block(blk, lo, bo, po)
             tt = blk["t"]
             if tt["k"] == "return":
-                blk["s"].append({"k": "assign", "place": copy.deepcopy(dest),
+                blk["s"].append({"k": "assign", "place": _jcopy(dest),
                                  "rv": {"k": "use", "x": {"k": "move", "l": lo, "p": []}}, "ln": tt.get("ln", ln)})
                 if call_target is None:
                     blk["t"] = {"k": "unreachable"}
@@ -633,8 +665,8 @@ def inline(prog, f, pick=None, keep=(), depth=MAX_DEPTH, cross=None, value_combi
         # the calling block: bind the parameters, jump into the callee
         for i, a in enumerate(t["args"]):
             blocks[b]["s"].append({"k": "assign", "place": {"l": lo + 1 + i, "p": []},
-                                   "rv": {"k": "use", "x": copy.deepcopy(a)}, "ln": ln, "bind": True})
-        blocks.touch()
+                                   "rv": {"k": "use", "x": _jcopy(a)}, "ln": ln, "bind": True})
+        blocks.touch(b)
         blocks[b]["t"] = {"k": "goto", "t": bo, "ln": ln, "inlined_call": g.path}
         inlined.append(g.path)
     if not inlined:
